@@ -617,10 +617,140 @@ class Machine(object):
         self.lam_cache[key] = (body, names)
         return names
 
+    # --------------------------------------------------------------- syntax check
+    def check_syntax(self, x):
+        """A whole datum is checked before any of it runs, as every implementation that expands
+        or compiles a form before executing it does: a malformed special form anywhere in it
+        (executed or not) is an error of the datum.  A syntactic keyword in a variable position
+        is left unspecified.  Skipped once the program has bound a keyword name itself."""
+        stack = [x]
+        while stack:
+            if self.kw_shadow:
+                return
+            x = stack.pop()
+            t = type(x)
+            if t is Sym:
+                if x.name in KEYWORDS and not self.is_bound(x, self.genv):
+                    raise Unspecified("a syntactic keyword used as an expression")
+                continue
+            if t is not Pair:
+                if x is NIL:
+                    raise SchemeError("bad syntax: () is not an expression")
+                continue
+            head = x.car
+            sf = SPECIAL.get(head) if type(head) is Sym else None
+            n = length_of(x.cdr)
+            if n < 0:
+                raise SchemeError("bad syntax: improper form")
+            args = list_to_py(x.cdr)
+            if sf is None:
+                stack.append(head)
+                stack.extend(args)
+            elif sf == "quote":
+                if n != 1:
+                    raise SchemeError("bad syntax: quote")
+            elif sf == "quasiquote":
+                if n != 1:
+                    raise SchemeError("bad syntax: quasiquote")
+                stack.extend(self.template_unquotes(args[0], 1))
+            elif sf == "if":
+                if n not in (2, 3):
+                    raise SchemeError("bad syntax: if")
+                stack.extend(args)
+            elif sf == "define":
+                if n < 1:
+                    raise SchemeError("bad syntax: define")
+                if type(args[0]) is Pair:
+                    if type(args[0].car) is not Sym or n < 2:
+                        raise SchemeError("bad syntax: define")
+                    self.check_formals(args[0].cdr)
+                    stack.extend(args[1:])
+                elif type(args[0]) is Sym and n == 2:
+                    stack.append(args[1])
+                else:
+                    raise SchemeError("bad syntax: define")
+            elif sf == "set!":
+                if n != 2 or type(args[0]) is not Sym:
+                    raise SchemeError("bad syntax: set!")
+                stack.append(args[1])
+            elif sf == "lambda":
+                if n < 2:
+                    raise SchemeError("bad syntax: lambda")
+                self.check_formals(args[0])
+                stack.extend(args[1:])
+            elif sf in ("let", "let*", "letrec", "letrec*"):
+                if sf == "let" and n >= 1 and type(args[0]) is Sym:
+                    args = args[1:]
+                    n -= 1
+                if n < 2:
+                    raise SchemeError("bad syntax: " + sf)
+                names, inits = self.bindings(args[0])
+                stack.extend(inits)
+                stack.extend(args[1:])
+            elif sf == "cond":
+                if n == 0:
+                    raise SchemeError("bad syntax: cond")
+                self.check_cond(x.cdr)
+                for cl in args:
+                    for e in list_to_py(cl):
+                        if e is not S_ELSE and e is not S_ARROW:
+                            stack.append(e)
+            elif sf == "case":
+                if n < 2:
+                    raise SchemeError("bad syntax: case")
+                self.check_case(x.cdr.cdr)
+                stack.append(args[0])
+                for cl in args[1:]:
+                    for e in list_to_py(cl.cdr):
+                        if e is not S_ARROW:
+                            stack.append(e)
+            elif sf in ("when", "unless"):
+                if n < 2:
+                    raise SchemeError("bad syntax: " + sf)
+                stack.extend(args)
+            elif sf in ("delay", "delay-force"):
+                if n != 1:
+                    raise SchemeError("bad syntax: " + sf)
+                stack.extend(args)
+            else:       # begin, and, or
+                stack.extend(args)
+
+    def check_formals(self, f):
+        while type(f) is Pair:
+            if type(f.car) is not Sym:
+                raise SchemeError("bad syntax: formal is not an identifier")
+            f = f.cdr
+        if f is not NIL and type(f) is not Sym:
+            raise SchemeError("bad syntax: rest formal is not an identifier")
+
+    def template_unquotes(self, t, level):
+        out = []
+        stack = [(t, level)]
+        while stack:
+            t, level = stack.pop()
+            while type(t) is Pair:
+                h = t.car
+                if type(h) is Sym and type(t.cdr) is Pair and t.cdr.cdr is NIL and h in (Q_UNQUOTE, Q_SPLICE, Q_QUASI):
+                    if h is Q_QUASI:
+                        stack.append((t.cdr.car, level + 1))
+                    elif level == 1:
+                        out.append(t.cdr.car)
+                    else:
+                        stack.append((t.cdr.car, level - 1))
+                    t = NIL
+                    break
+                stack.append((h, level))
+                t = t.cdr
+            if type(t) is Vector:
+                for i in t.items:
+                    stack.append((i, level))
+        return out
+
     # ------------------------------------------------------------------------ run
     def eval_toplevel(self, expr):
         """evaluate one top-level datum in the global environment; returns the value"""
         self.serial += 1
+        self.check_syntax(expr)
         return self.run(expr, self.genv, None)
 
     def run(self, expr, env, k):
@@ -1654,6 +1784,7 @@ def install_primitives(m):
     def _(m, args, k):
         if len(args) == 2:
             raise Unspecified("eval with an environment argument")
+        m.check_syntax(args[0])
         return args[0], m.genv, k, None, True
 
     @special("force", 1, 1)
